@@ -79,4 +79,157 @@ theorem gapEqWB_sound : ∀ (po : Bool) (ft1 ft2 : FT), gapEqWB po ft1 ft2 = tru
       · rw [hke] at he; simp at he
       · exact he
 
+/-! ### sharper still: a gap behind a literal matters only if the next token can keep it
+
+The rule of most kinds overwrites the token's own `spaces_before` (`;`, `)`, `,`, binary operators, keywords, comments,
+directives).  Only identifiers, literals and the few operators whose rule may leave the value alone (`+`/`-` when
+unary, `(`/`[`, the pointer-type `^`) can keep what `max_one_either_side` of the literal in front of them wrote. -/
+
+theorem keepsCur_false_not_other (k : Kind) (h : keepsCur k = false) : isOtherKind k = false := by
+  cases k <;> simp_all [keepsCur, isOtherKind]
+
+theorem spacesBeforeFn_some (prev : Option Kind) (n : Nat) : ∃ v, spacesBeforeFn prev n = some v := by
+  unfold spacesBeforeFn
+  split
+  · exact ⟨_, rfl⟩
+  · split <;> exact ⟨_, rfl⟩
+
+/-- a kind that does not keep its spacing gets a value from its own rule, whatever the current values are -/
+theorem spacingRule_fst_some (k : Kind) (prev prevReal next : Option Kind) (h : keepsCur k = false) :
+    ∃ v, ∀ c n, (spacingRule k prev prevReal next c n).1 = some v := by
+  have hsb := spacesBeforeFn_some prev 1
+  obtain ⟨vb, hvb⟩ := hsb
+  cases k with
+  | tOp op =>
+    cases op <;> (try (rename_i x; cases x)) <;>
+      first
+      | (exfalso; simp [keepsCur] at h; done)
+      | exact ⟨_, fun _ _ => rfl⟩
+      | exact ⟨vb, fun _ _ => hvb⟩
+      | (simp only [spacingRule, spaceOperator]; split <;> exact ⟨_, fun _ _ => rfl⟩)
+  | tComment c =>
+    cases c <;> first
+      | exact ⟨_, fun _ _ => rfl⟩
+      | exact ⟨vb, fun _ _ => hvb⟩
+  | tCompilerDirective => exact ⟨vb, fun _ _ => hvb⟩
+  | tConditionalDirective d => exact ⟨vb, fun _ _ => hvb⟩
+  | tKeyword kw => exact ⟨vb, fun _ _ => hvb⟩
+  | _ => simp [keepsCur] at h
+
+inductive LayoutEqW2 : Bool → List (Kind × Nat) → List (Kind × Nat) → Prop
+  | nil {po} : LayoutEqW2 po [] []
+  | cons {po k a b r1 r2} : (((po = true ∧ keepsCur k = true) ∨ k = .tEof) → min a 1 = min b 1) →
+      LayoutEqW2 (isOtherKind k) r1 r2 → LayoutEqW2 po ((k, a) :: r1) ((k, b) :: r2)
+
+/-- current values the rule of a token of kind `k` cannot tell apart, or does not keep -/
+def CurEq2 (k : Kind) (c1 c2 : Nat) : Prop := c1 = c2 ∨ (k = .tEof ∧ min c1 1 = min c2 1) ∨ keepsCur k = false
+
+theorem spacingGo_layoutW2 (po : Bool) (l1 l2 : List (Kind × Nat)) (h : LayoutEqW2 po l1 l2)
+    (hni : noInlineLine l1) (prev prevReal : Option Kind) (c1 c2 : Nat)
+    (hc : ∀ k a r, l1 = (k, a) :: r → CurEq2 k c1 c2) :
+    spacingGo prev prevReal c1 l1 = spacingGo prev prevReal c2 l2 := by
+  induction h generalizing prev prevReal c1 c2 with
+  | nil => rfl
+  | @cons po k a b r1 r2 hab hr ih =>
+    have hce : CurEq2 k c1 c2 := hc k a r1 rfl
+    -- the head's final value
+    have hhead : ∀ (next : Option Kind) (n1 n2 : Option Nat),
+        (spacingRule k prev prevReal next c1 n1).1.getD c1 = (spacingRule k prev prevReal next c2 n2).1.getD c2 := by
+      intro next n1 n2
+      rcases hce with h | h | h
+      · subst h
+        by_cases ho : isOtherKind k = true
+        · have : (spacingRule k prev prevReal next c1 n1).1 = (spacingRule k prev prevReal next c1 n2).1 := by
+            unfold spacingRule; split <;> first | rfl | (simp [isOtherKind] at ho)
+          rw [this]
+        · rw [spacingRule_const k prev prevReal next c1 c1 n1 n2 (by simpa using ho)]
+      · obtain ⟨hk, hm⟩ := h
+        subst hk
+        simp [spacingRule_eof, hm]
+      · obtain ⟨v, hv⟩ := spacingRule_fst_some k prev prevReal next h
+        rw [hv, hv]; rfl
+    cases hr with
+    | nil =>
+      unfold spacingGo
+      simp only [List.head?_nil, Option.map_none]
+      rw [hhead none none none]
+    | @cons _ k' a' b' r1' r2' hab' hr' =>
+      have hk : k ≠ .tComment .cInlineLine := hni (k, a) (by simp)
+      unfold spacingGo
+      simp only [List.head?_cons, Option.map_some]
+      rw [hhead (some k') (some a') (some b')]
+      congr 1
+      apply ih (fun p hp => hni p (by simp [hp])) (some k)
+      intro k2 a2 r2' heq
+      simp only [List.cons.injEq, Prod.mk.injEq] at heq
+      obtain ⟨⟨hk2, ha2⟩, _⟩ := heq
+      subst hk2
+      -- what the head's rule leaves as the current value of the next token
+      by_cases ho : isOtherKind k = true
+      · -- `max_one_either_side`: writes `min(next, 1)`
+        have e1 : (spacingRule k prev prevReal (some k') c1 (some a')).2 = some (min a' 1) := by
+          unfold spacingRule; split <;> first | rfl | (simp [isOtherKind] at ho)
+        have e2 : (spacingRule k prev prevReal (some k') c2 (some b')).2 = some (min b' 1) := by
+          unfold spacingRule; split <;> first | rfl | (simp [isOtherKind] at ho)
+        rw [e1, e2]
+        unfold nextCur CurEq2
+        by_cases he : (k' == .tEof) = true
+        · have hke : k' = .tEof := by simpa using he
+          simp only [he, if_true]
+          exact Or.inr (Or.inl ⟨hke, hab' (Or.inr hke)⟩)
+        · simp only [he]
+          by_cases hkc : keepsCur k' = true
+          · left
+            have := hab' (Or.inl ⟨ho, hkc⟩)
+            simpa using this
+          · right; right; simpa using hkc
+      · have hno : isOtherKind k = false := by simpa using ho
+        rw [spacingRule_const k prev prevReal (some k') c1 c2 (some a') (some b') hno]
+        obtain ⟨av, hav⟩ := spacingRule_after_some k prev prevReal (some k') c2 b' hk
+        rw [hav]
+        unfold nextCur CurEq2
+        by_cases he : (k' == .tEof) = true
+        · have hke : k' = .tEof := by simpa using he
+          simp only [he, if_true]
+          exact Or.inr (Or.inl ⟨hke, hab' (Or.inr hke)⟩)
+        · left; simp [he]
+
+theorem spacingResult_layoutW2 (l1 l2 : List (Kind × Nat)) (h : LayoutEqW2 false l1 l2) (hni : noInlineLine l1) :
+    spacingResult l1 = spacingResult l2 := by
+  cases h with
+  | nil => rfl
+  | @cons _ k a b r1 r2 hab hr =>
+    -- `spacingResult` drops the head's own value: run both from the same current value
+    have key := spacingGo_layoutW2 false ((k, a) :: r1) ((k, b) :: r2) (LayoutEqW2.cons hab hr) hni none none a a
+      (fun _ _ _ _ => Or.inl rfl)
+    have e2 : (spacingGo none none a ((k, b) :: r2)).tail = (spacingGo none none b ((k, b) :: r2)).tail := by
+      cases r2 with
+      | nil => unfold spacingGo; rfl
+      | cons q r2' =>
+        obtain ⟨k', b'⟩ := q
+        unfold spacingGo
+        simp only [List.head?_cons, Option.map_some, List.tail_cons]
+        -- the head is the first token: its own current value is read by its rule only through `.2` when it is of an
+        -- "other" kind, where `.2` does not depend on it
+        have hsnd : (spacingRule k none none (some k') a (some b')).2 = (spacingRule k none none (some k') b (some b')).2 := by
+          unfold spacingRule; split <;> rfl
+        rw [hsnd]
+    unfold spacingResult
+    simp only
+    have hne1 : ∃ x t, spacingGo none none a ((k, a) :: r1) = x :: t := by
+      unfold spacingGo; cases r1 <;> exact ⟨_, _, rfl⟩
+    have hne2 : ∃ x t, spacingGo none none b ((k, b) :: r2) = x :: t := by
+      unfold spacingGo; cases r2 <;> exact ⟨_, _, rfl⟩
+    have hne3 : ∃ x t, spacingGo none none a ((k, b) :: r2) = x :: t := by
+      unfold spacingGo; cases r2 <;> exact ⟨_, _, rfl⟩
+    obtain ⟨x1, t1, e1⟩ := hne1
+    obtain ⟨x2, t2, e2'⟩ := hne2
+    obtain ⟨x3, t3, e3⟩ := hne3
+    rw [e1, e2']
+    rw [e1, e3] at key
+    rw [e3, e2'] at e2
+    simp only [List.tail_cons] at e2
+    simp only [List.cons.injEq] at key
+    simp [key.2, e2]
+
 end Pasfmt
